@@ -9,7 +9,14 @@
      Return:           limit.Return (error -> returned, no signal); cond.Signal
 
    The timer may fire at any moment (no wall-clock assumption); after a wake-up the remaining
-   timeout is positive or not, nondeterministically.  Events are published as in LimitImpl.
+   timeout is positive or not, nondeterministically (`more`: the waiter may have been given the
+   CPU only after its deadline -- the deadline is on the clock, the wake-up is the scheduler's).
+   A woken waiter whose TryBorrow succeeds is admitted even if no time remains; one that reports
+   ErrTimeout has not taken a permit.  Variant "late_keeps" (TimeoutLimitImplBugLate.cfg, expected
+   counterexample) is the class of defect in which the time check comes after the permit was
+   taken: ErrTimeout is reported, the permit is kept, the probe finds n-1.  The same region is
+   driven on the real code by the schedules of SemGenTimed (clock hook H1).
+   Events are published as in LimitImpl.
 
    Observation (config TimeoutLimitLost.cfg, expected counterexample): because Signal is lossy
    a Return that happens between a Borrow's failed TryBorrow and its select is lost: the waiter
@@ -42,7 +49,12 @@ Ev(e, p) == [e |-> e, p |-> p]
         or     { await ready[self]; ready[self] := FALSE; ok := FALSE; more := FALSE; };
   t4:   if (ok) {
           if (Variant = "wake_admits") { ch := ch + 1; got := TRUE; goto t6; }
-          else if (ch < Cap) { ch := ch + 1; got := TRUE; goto t6; };
+          else if (ch < Cap) {
+            ch := ch + 1;
+            \* "late_keeps": success is only reported while time remains -- after TryBorrow has taken the permit
+            if (Variant = "late_keeps" /\ ~more) { got := FALSE; } else { got := TRUE; };
+            goto t6;
+          };
         };
   t5:   if (more) { goto t2; };
   t6:   emit([e |-> "acqEnd", p |-> Ticket(self, rnd), ok |-> got, r |-> 0, code |-> 0]);
@@ -151,7 +163,9 @@ t4(self) == /\ pc[self] = "t4"
                                   /\ pc' = [pc EXCEPT ![self] = "t6"]
                              ELSE /\ IF ch < Cap
                                         THEN /\ ch' = ch + 1
-                                             /\ got' = [got EXCEPT ![self] = TRUE]
+                                             /\ IF Variant = "late_keeps" /\ ~more[self]
+                                                   THEN /\ got' = [got EXCEPT ![self] = FALSE]
+                                                   ELSE /\ got' = [got EXCEPT ![self] = TRUE]
                                              /\ pc' = [pc EXCEPT ![self] = "t6"]
                                         ELSE /\ pc' = [pc EXCEPT ![self] = "t5"]
                                              /\ UNCHANGED << ch, got >>
